@@ -23,6 +23,7 @@ numbers), every queue; proofs are by structural induction on the fuel of the loo
 -/
 import Hfsm.Proofs.CoverageMach
 import Hfsm.Proofs.Witness
+import Hfsm.Proofs.Reach
 
 set_option linter.unusedSectionVars false
 
@@ -364,5 +365,88 @@ Theorems that constitute property C04 (for `Props/INDEX.json`):
     silent_veto_witness                                          (d) a veto without any cancellation exists
     loop_unfolds, apply_phase_keeps_queue, round_queue_is_guard_output   (e) substituted requests re-enter the loop
 -/
+
+end Hfsm.Props.C04
+
+/-! ## end-to-end (composition with C01)
+
+The theorems above are about `Mach.processRequest` of an ARBITRARY instance value `m` — they need no
+well-formedness hypothesis, so there is nothing of C01 to discharge; what the composition adds is WHERE a
+processing step occurs in the life of an instance and that the constants are those of its construction:
+`m.atProcess o = some m'` (Proofs/Reach.lean) says that the API call `o` (`update`, `react`, an immediate
+transition) on `m` has done its passes / queued its request and hands `m'` to `processRequest`
+(`Api.step m o = m'.processRequest`, `m'.root = m.root`).  For every REACHABLE `m`
+(`ReachableOf shape cfg m`: `Mach.create shape cfg` followed by any history of API calls): -/
+namespace Hfsm.Props.C04
+open Hfsm Hfsm.Mach
+variable {U : Type} [UtilArith U] {shape : Shape} {cfg : Config} {m m' : Mach U} {o : Api.Op}
+
+/-- (a) the substitution loop of the call runs at most `cfg.substitutionLimit` rounds — the limit the instance
+was constructed with. -/
+theorem rounds_bounded_reachable (h : ReachableOf shape cfg m) (hp : m.atProcess o = some m') :
+    Api.step m o = m'.processRequest ∧ m'.stepLog.length ≤ cfg.substitutionLimit := by
+  refine ⟨Mach.atProcess_step hp, ?_⟩
+  have := rounds_bounded m'
+  rwa [Mach.atProcess_cfg hp, h.cfg_substitutionLimit] at this
+
+/-- (a) … read off the trace of the call: at most `cfg.substitutionLimit` guard phases. -/
+theorem guard_phases_bounded_reachable (h : ReachableOf shape cfg m) (hp : m.atProcess o = some m')
+    (hne : m'.w.requests.isEmpty = false) :
+    ∃ new, (Api.step m o).w.trace = new ++ m'.w.trace ∧ runs (guardPends new) ≤ cfg.substitutionLimit := by
+  obtain ⟨new, ht, hb⟩ := guard_phases_bounded m' hne
+  rw [Mach.atProcess_cfg hp, h.cfg_substitutionLimit] at hb
+  exact ⟨new, by rw [Mach.atProcess_step hp]; exact ht, hb⟩
+
+/-- (b)(c) the trace of the call after the passes: the rounds of the loop (`LoopRun`), then — only if
+something was approved — the lifecycle callbacks of the one commit pass; every `enter / exit / reenter` is
+newer than every guard callback. -/
+theorem lifecycle_after_guards_reachable (h : ReachableOf shape cfg m) (hp : m.atProcess o = some m')
+    (hne : m'.w.requests.isEmpty = false) :
+    ∃ life evs, (Api.step m o).w.trace = life ++ evs ++ m'.w.trace ∧
+      LoopRun cfg.substitutionLimit [] evs m'.stepLog ∧ (∀ e ∈ evs, NotLife e) ∧
+      (∀ e ∈ life, LifeEv (approvedOf m'.stepLog) e) ∧ (approvedOf m'.stepLog = [] → life = []) := by
+  obtain ⟨life, evs, ht, hl, hlife, hnil⟩ := step_trace m' hne
+  rw [Mach.atProcess_cfg hp, h.cfg_substitutionLimit] at hl
+  exact ⟨life, evs, by rw [Mach.atProcess_step hp]; exact ht, hl, hl.no_lifecycle, hlife, hnil⟩
+
+/-- (d) a call in which no round is approved changes nothing: the registry afterwards is the registry of `m`
+in structure and active prongs, without request marks, and no lifecycle callback was delivered. -/
+theorem nothing_approved_nothing_changed_reachable (_h : ReachableOf shape cfg m) (hp : m.atProcess o = some m')
+    (hne : m'.w.requests.isEmpty = false) (hnone : approvedOf m'.stepLog = []) :
+    (Api.step m o).root.noResumable = m.root.frozen ∧
+    ∃ evs, (Api.step m o).w.trace = evs ++ m'.w.trace ∧ ∀ e ∈ evs, NotLife e := by
+  rw [Mach.atProcess_step hp, ← Mach.atProcess_root hp]
+  exact nothing_approved_nothing_changed m' hne hnone
+
+/-- the queue handed over by an immediate transition is not empty as soon as the instance was constructed with
+a queue (`hne` of the theorems above, discharged for `o = immediate …`) -/
+theorem immediate_queue_nonempty_reachable (h : ReachableOf shape cfg m) (hq : 0 < cfg.queueCap)
+    (k : Kind) (d : Nat) (p : Option Nat) : (m.request k d p).w.requests.isEmpty = false := by
+  have hc := h.cfg_queueCap
+  unfold Mach.request
+  simp only [World.logRec_requests]
+  split
+  · simp
+  · next hlt =>
+    cases hr : m.w.requests with
+    | nil => rw [hr, hc] at hlt; exact absurd hq hlt
+    | cons _ _ => rfl
+
+/-- … hence for an immediate transition on a reachable instance with a queue, unconditionally -/
+theorem immediate_lifecycle_after_guards_reachable (h : ReachableOf shape cfg m) (hq : 0 < cfg.queueCap)
+    (k : Kind) (d : Nat) (p : Option Nat) :
+    ∃ life evs, (m.immediate k d p).w.trace = life ++ evs ++ (m.request k d p).w.trace ∧
+      (m.request k d p).stepLog.length ≤ cfg.substitutionLimit ∧ (∀ e ∈ evs, NotLife e) ∧
+      (∀ e ∈ life, LifeEv (approvedOf (m.request k d p).stepLog) e) := by
+  have hp : m.atProcess (.immediate k d p) = some (m.request k d p) := rfl
+  obtain ⟨life, evs, ht, _, hn, hl, _⟩ :=
+    lifecycle_after_guards_reachable h hp (immediate_queue_nonempty_reachable h hq k d p)
+  exact ⟨life, evs, ht, (rounds_bounded_reachable h hp).2, hn, hl⟩
+
+/-- a concrete non-trivial reachable instance exists, and a processing step from it is not vacuous -/
+example : Reachable (Api.run Demo.mach Demo.prog) := Demo.reachable.reachable
+example : ∃ m : Mach Demo.DU, ReachableOf Demo.shape Demo.cfg m ∧ 0 < Demo.cfg.queueCap ∧
+    (m.request .change 2 none).w.requests.isEmpty = false :=
+  ⟨_, Demo.reachable, by decide, by decide +kernel⟩
 
 end Hfsm.Props.C04
